@@ -123,7 +123,7 @@ func sameTris(a []topo.T3, b *model3d.Mesh, tol float64) bool {
 				ok := true
 				for k := 0; k < 3; k++ {
 					for d := 0; d < 3; d++ {
-						if math.Abs(t[k][d]-u[(k+r)%3][d]) > tol {
+						if !(math.Abs(t[k][d]-u[(k+r)%3][d]) <= tol) {
 							ok = false
 						}
 					}
@@ -358,7 +358,7 @@ func judge3(op meshOp3, in, out *model3d.Mesh, verdict string) string {
 	}
 	surf := 0.0
 	in.Iterate(func(t *model3d.Triangle) { surf += t.Area() })
-	if op.sameVolume && math.Abs(ro.Volume-ri.Volume) > 1e-9*math.Abs(ri.Volume)+1e-7*surf {
+	if op.sameVolume && !(math.Abs(ro.Volume-ri.Volume) <= 1e-9*math.Abs(ri.Volume)+1e-7*surf) {
 		return fmt.Sprintf("VIOLATION shape: volume changed from %.12g to %.12g", ri.Volume, ro.Volume)
 	}
 	if op.faces != nil && ro.F != op.faces(ri.F) {
@@ -481,7 +481,7 @@ func registerARAP() {
 						}
 						if len(cons) == 3 {
 							for v, w := range mp {
-								if w.Dist(f(v)) > 1e-3 {
+								if !(w.Dist(f(v)) <= 1e-3) {
 									return fmt.Sprintf("VIOLATION rigid: three constraints taken from one rigid motion, but vertex %v went to %v instead of %v", v, w, f(v))
 								}
 							}
@@ -680,7 +680,7 @@ func register2D() {
 		perim := 0.0
 		in.Iterate(func(sg *model2d.Segment) { perim += sg.Length() })
 		// epsilon-based eliminations may move the outline by up to their epsilon (1e-8)
-		if op.sameArea && math.Abs(ai-ao) > 1e-9*math.Abs(ai)+1e-7*perim {
+		if op.sameArea && !(math.Abs(ai-ao) <= 1e-9*math.Abs(ai)+1e-7*perim) {
 			return fmt.Sprintf("VIOLATION shape: area changed from %.12g to %.12g", ai, ao)
 		}
 		if op.vertSubset {
